@@ -425,9 +425,14 @@ func cmdCheck(argv []string) {
 			"wall_s":      wall,
 			"violations":  len(violLines),
 		}
-		os.MkdirAll(filepath.Join(verifRoot(), "evidence"), 0o755)
+		// runs against a scratch copy of the repository (seeded changes) keep their evidence apart
+		evDir := filepath.Join(verifRoot(), "evidence")
+		if d := os.Getenv("VERIF_EVIDENCE"); d != "" {
+			evDir = d
+		}
+		os.MkdirAll(evDir, 0o755)
 		b, _ := json.MarshalIndent(ev, "", " ")
-		if err := os.WriteFile(filepath.Join(verifRoot(), "evidence", id+".json"), b, 0o644); err != nil {
+		if err := os.WriteFile(filepath.Join(evDir, id+".json"), b, 0o644); err != nil {
 			fmt.Println("INCONCLUSIVE: cannot write evidence:", err)
 			os.Exit(2)
 		}
